@@ -205,6 +205,16 @@ def string_programs():
         out.append((f"strings/{i}", f'WallLights["{lit}"].On = 1\ndb.Setting = HASH("{lit}")\nx = d0.Setting\nif x > 1:\n    d1.Setting = HASH("{lit}")\n'))
         short = n[:6]
         out.append((f"strings/str{i}", f'db.Setting = STR("{short}")\nwhile d0.On < 1:\n    d1.Setting = STR("{short}")\n    yield_()\n'))
+    # HASH literals inside constant-folded expressions: in verbose mode the folder sees the text HASH("..") and
+    # has to unwrap the name, in compact mode it sees the number
+    fnames = ["Steel", "Airlock Sensor", "StructureArcFurnace", "HASH", "SASH", "A", "(x)", "Pump", "tail)", "H2 Tank (A)", "ASHA", "SS"]
+    forms = ["{h} + 1", "{h} * 2", "-{h}", "{h} % 1000", "{h} & 65535", "({h} >> 4) + 3", "{h} - {h2}"]
+    for i, n in enumerate(fnames):
+        body = []
+        for j, f in enumerate(forms):
+            e = f.format(h=f'HASH("{n}")', h2=f'HASH("{fnames[(i + 1) % len(fnames)]}")')
+            body.append(f"d{j % 6}.Setting = {e}")
+        out.append((f"strings/fold{i}", "\n".join(body) + "\n"))
     return out
 
 
